@@ -118,7 +118,7 @@ def check(repo, rep, tier):
     rep.floor('Tree accessors analysed', nacc, 15)
     tok = repo.module('depccg/types.py').get('Token')
     for s in tok.body:
-        if isinstance(s, ast.FunctionDef) and s.name in ('__getattr__', '__repr__'):
+        if isinstance(s, ast.FunctionDef) and s.name != '__init__' and not any('classmethod' in src(d) or 'staticmethod' in src(d) for d in s.decorator_list):
             muts = effects.mutations(s, {'self'})
             rep.check(not muts, 'R18.2', 'depccg/types.py:%s Token.%s' % (s.lineno, s.name), 'types.py:Token.%s:mutates' % s.name,
                       'Token.%s does not modify the token' % s.name, 'Token.%s modifies the token' % s.name)
